@@ -17,6 +17,7 @@ Every corruption case runs in a forked child (vf/isolate.py): a crash is attribu
 """
 import ctypes
 import os
+import re
 import subprocess
 
 import numpy as np
@@ -498,7 +499,17 @@ class C31:
         elif stage == 'load':
           ck.violation(msg, replay, bucket='load-crash:%s:%s' % (kind, fn), fingerprint='mjb-load-crash:%s:%s' % (kind, fn))
         elif case.get('reference'):
-          ck.violation(msg, replay, bucket='postload-crash:%s' % field, fingerprint='mjb-postload-crash:%s' % field)
+          fp = 'mjb-postload-crash:%s' % field
+          mi = re.search(r'geom_dataid\[(\d+)\]', case['what']) if field == 'geom_dataid' else None
+          if mi is not None:
+            # input rule: an out-of-range geom_dataid written on a geom that is not mesh/sdf/hfield IS the input class of the
+            # listed finding mjb-unvalidated:geom_dataid[primitive] (accepted unchecked, then followed by the collision code);
+            # the crash is that finding met before the reference checker could report it
+            E_ = self.lib.enums
+            gt = int(rec['m'].geom_type[int(mi.group(1))])
+            if gt not in (E_.mjGEOM_MESH, E_.mjGEOM_SDF, E_.mjGEOM_HFIELD):
+              fp = 'mjb-unvalidated:geom_dataid[primitive]'
+          ck.violation(msg, replay, bucket='postload-crash:%s' % field, fingerprint=fp)
         else:
           ck.label('postload-crash-after-nonreference-corruption')
           self.note_family('not-judged:postload-crash-after-nonreference-corruption', '%s -> %s in %s' % (field, kind, fn))
@@ -836,6 +847,19 @@ def main(ck):
 
   def rt_test(case):
     gm, seed = case
+    # The compiler is not the subject here, and under the ASan build an engine error inside mj_compile can loop forever
+    # (mj_deleteData in the catch block raises the mark/free pairing error again and longjmps back into Compile; the
+    # process grew to 59 GB): compile once in a forked child with a time limit first.
+    def probe(x, note):
+      try:
+        lib.model_from_xml(x)
+        return 'ok'
+      except mj.MjError:
+        return 'error'
+    st_, pay = [(s_, p_) for _, s_, p_ in isolate.run(probe, [gm.xml], timeout=40, asan_log=ASAN_LOG)][0]
+    if st_ != 'ok' or pay != 'ok':
+      ck.discard('compile' if st_ == 'ok' else 'compile-%s-under-asan' % st_)
+      return
     try:
       m = lib.model_from_xml(gm.xml)
     except mj.MjError:
@@ -848,7 +872,8 @@ def main(ck):
             labels=['roundtrip:generated'] + [l for l in gm.labels() if l.split(':')[0] in (
                 'mesh', 'hfield', 'texture', 'material', 'default-class', 'frame', 'replicate', 'keyframe', 'tuple',
                 'geom-adhesion', 'pair-adhesion', 'gravcomp', 'surfacevel', 'numeric', 'text', 'pair', 'exclude')])
-  ck.run_hypothesis(rt_test, st.tuples(gen_io.rich_models(max_bodies=4, memory='2M', fusestatic=False, muscles=False), mg.state_seed()), ck.budget(5, 120),
+  ck.run_hypothesis(rt_test, st.tuples(gen_io.rich_models(max_bodies=4, memory='2M', fusestatic=False, muscles=False,
+                                                           base_kwargs=dict(opt_kwargs=dict(sleep=False, flags=False))), mg.state_seed()), ck.budget(5, 120),
                     name='roundtrip', shrink=False)
   _tick('roundtrip-generated')
   files = [f for f in corpus.xml_files(lib.repo) if os.path.getsize(f) < (4000 if quick else 40000)]
